@@ -1,6 +1,6 @@
 """Per-property configuration of bin/check."""
 
-import os, subprocess, json
+import os, subprocess, json, re
 
 def facts_factx(repo, lean):
     """Tie C: regenerate FpVerif/Gen/Facts.lean from the repository's source (deleted first)."""
@@ -244,6 +244,49 @@ def facts_tcgen(repo, lean):
 
 
 
+def facts_coregen(repo, lean):
+    """Tie A (cores): harness/cmd/core2lean TRANSLATES the hand-written function bodies of try.go, option.go, either.go, state.go,
+    try/try_op.go, option/option_op.go, either/either_op.go, statet/statet_op.go found in the working tree into Lean definitions
+    over GoM (FpVerif/Gen/CoreGen.lean, not under version control); the committed theorems of Spec/C01CoreGen.lean state, per
+    function, that the translated definition is the hand-written model, that the files contain nothing else (coverage), and
+    restate the monad laws / of_spec / put_get / recover_failure for the translated definitions."""
+    out = os.path.join(lean, 'FpVerif', 'Gen', 'CoreGen.lean')
+    os.makedirs(os.path.dirname(out), exist_ok=True)
+    harness = os.path.join(os.path.dirname(lean), 'harness')
+    env = dict(os.environ, GOFLAGS='-mod=mod', GOPROXY='off', GOSUMDB='off', GOTOOLCHAIN='local')
+    tmp_out = out + '.new.%d' % os.getpid()
+    p = subprocess.run(['go', 'run', './cmd/core2lean', repo, tmp_out], cwd=harness, env=env, stdout=subprocess.PIPE,
+                       stderr=subprocess.STDOUT, text=True)
+    if p.returncode != 0 or not os.path.exists(tmp_out):
+        if os.path.exists(out):
+            os.remove(out)
+        return dict(error='core2lean failed: ' + p.stdout[-800:], obligations=1)
+    # keep the old file (and its build products) when the translation did not change
+    if not os.path.exists(out) or open(out).read() != open(tmp_out).read():
+        os.replace(tmp_out, out)
+    else:
+        os.remove(tmp_out)
+    info = json.loads(p.stdout.strip().split('\n')[-1])
+    res = dict(translated=info['translated'], untranslatable=info['untranslatable'], exceptions=sorted(info['exceptions']),
+               other_ties=len(info['other_ties']), obligations=2, generated='FpVerif/Gen/CoreGen.lean')
+    if info['untranslatable']:
+        res['error'] = 'core2lean: outside the translated fragment: ' + json.dumps(info['untranslatable'])[:800]
+        return res
+    # second obligation: every translated function has its committed theorem (<pkg>_<name>_is_model or <pkg>_<name>_def)
+    spec = open(os.path.join(lean, 'FpVerif', 'Spec', 'C01CoreGen.lean')).read()
+    gen = open(out).read()
+    m = re.search(r'^def translated : List String := \[(.*)\]$', gen, re.M)
+    names = re.findall(r'"([^"]+)"', m.group(1)) if m else []
+    missing = [n for n in names
+               if not re.search(r'^theorem %s_(is_model|def)\b' % re.escape(n.replace('.', '_')), spec, re.M)]
+    if not names or missing:
+        res['error'] = 'core2lean: translated functions without a committed theorem: ' + ', '.join(missing or ['<none translated>'])
+    return res
+
+
+
+
+
 import re as _re
 
 def project_future(line):
@@ -300,8 +343,8 @@ ARITY_H = H('arity', 'oracle_arity', 8000, 400000, spec_level=True, nontrivial=l
 
 CHECKS = {
     'C01': dict(
-        spec=['FpVerif.Spec.C01', 'FpVerif.Spec.C01Inst', 'FpVerif.Spec.C01T', 'FpVerif.Spec.C01TExt', 'FpVerif.Spec.C01Coll', 'FpVerif.Spec.C16', 'FpVerif.Spec.C01Fn', 'FpVerif.Spec.C17', 'FpVerif.Spec.C01Gen'],
-        facts=facts_all(facts_monadgen),
+        spec=['FpVerif.Spec.C01', 'FpVerif.Spec.C01Inst', 'FpVerif.Spec.C01T', 'FpVerif.Spec.C01TExt', 'FpVerif.Spec.C01Coll', 'FpVerif.Spec.C16', 'FpVerif.Spec.C01Fn', 'FpVerif.Spec.C17', 'FpVerif.Spec.C01Gen', 'FpVerif.Spec.C01CoreGen'],
+        facts=facts_all(facts_monadgen, facts_coregen),
         harnesses=MONAD_H + [TRYOPT_H, ARITY_H, H('iter', 'oracle_iter', 4000, 400000, spec_level=True, project=project_iter, extra=dict(quick=['-prop', 'C12'], thorough=['-prop', 'C12'])),
                              H('eval', 'oracle_eval', 2000, 100000, spec_level=True, extra=dict(quick=['-deep', '20000'], thorough=['-deep', '200000'])),
                              # the function monads fn0 / fn1 (reader monad over the effect monad)
@@ -330,8 +373,8 @@ CHECKS = {
                      'iterators handed to FoldM/Traverse are viewed as the finite list they yield (pull behaviour: C12/C20)'],
     ),
     'C02': dict(
-        spec=['FpVerif.Spec.C02', 'FpVerif.Spec.C02Ext', 'FpVerif.Spec.C01Gen'],
-        facts=facts_all(facts_monadgen),
+        spec=['FpVerif.Spec.C02', 'FpVerif.Spec.C02Ext', 'FpVerif.Spec.C01Gen', 'FpVerif.Spec.C01CoreGen'],
+        facts=facts_all(facts_monadgen, facts_coregen),
         harnesses=MONAD_H + [TRYOPT_C02_H, ARITY_H, H('statet', 'oracle_statet', 3000, 100000, spec_level=True),
                              # future.Apply/Apply2 panic capture, future builders' suppliers after a failure
                              H('future', 'oracle_future', 2000, 100000, spec_level=True, project=project_future),
@@ -567,8 +610,8 @@ CHECKS = {
     'C17': dict(
         # Spec.C17: the hand-written core (Get/Put/Modify/FlatMap/FoldM/Concat/Recover*); Spec.C01 + C01Inst: the generated
         # statet_monad.go family as the generic template instantiated at the (lawful) StateT operations
-        spec=['FpVerif.Spec.C17', 'FpVerif.Spec.C17Ext', 'FpVerif.Spec.C01', 'FpVerif.Spec.C01Inst', 'FpVerif.Spec.C01Gen'],
-        facts=facts_all(facts_monadgen),
+        spec=['FpVerif.Spec.C17', 'FpVerif.Spec.C17Ext', 'FpVerif.Spec.C01', 'FpVerif.Spec.C01Inst', 'FpVerif.Spec.C01Gen', 'FpVerif.Spec.C01CoreGen'],
+        facts=facts_all(facts_monadgen, facts_coregen),
         harnesses=[H('statet', 'oracle_statet', 4000, 200000, spec_level=True),
                    # state threading / short-circuit of the generated statet_monad.go family (Ap, Map2, Zip, LiftA/LiftM, Sequence, Traverse ...)
                    H('monad_statet', 'oracle_monad', 3000, 150000, oracle_args=['statet'], spec_level=True),
@@ -754,10 +797,15 @@ _TIE_C_ATOM = (' Session 6, Tie C: harness/cmd/atomfacts extracts from the worki
                'cas, lock, once.Do, append, callbacks) (FpVerif/Gen/AtomFacts.lean); Spec/C05Facts, C19Facts, C06Facts, C16AtomFacts (44 theorems, '
                'decide +kernel): one yield in front of every access on every path, Lipton-reducible blocks, per-function skeleton = the skeleton of the '
                'Lean step machine, the set of functions reaching the cell. Trusted there: the extractor and the mover classification of Model/AtomShape.lean.')
+_TIE_A_CORE = (' harness/cmd/core2lean TRANSLATES the hand-written cores try.go, option.go, either.go, state.go, try/try_op.go, option/option_op.go, either/either_op.go, '
+               'statet/statet_op.go of the working tree (143 functions; 12 listed exceptions: String renderings, panicError internals, option.Of (reflection), '
+               'NonZero/String/NonEmptySlice (== / nil-ness on type parameters), Deref, TraverseOption, Traverse_; 41 functions belong to other ties) into '
+               'FpVerif/Gen/CoreGen.lean; Spec/C01CoreGen (204 theorems): translated = model (rfl / case split / induction for the loop helpers), coverage = '
+               'translated + exceptions + other ties, monad laws, of_spec (C02) and the StateT laws (C17) restated for the translated definitions.')
 for _pid in ('C01', 'C02', 'C17'):
-    CHECKS[_pid]['modelled'] = CHECKS[_pid].get('modelled', '') + _TIE_A_MONAD
-    CHECKS[_pid]['technique'] = ('Lean 4 proof over hand-written executable model + regenerated Go->Lean translation of the generated monad family '
-                                 'proved equal to the model (Tie A) + differential correspondence check')
+    CHECKS[_pid]['modelled'] = CHECKS[_pid].get('modelled', '') + _TIE_A_MONAD + _TIE_A_CORE
+    CHECKS[_pid]['technique'] = ('Lean 4 proof over hand-written executable model + regenerated Go->Lean translation of the generated monad family and of the hand-written '
+                                 'Option/Try/Either/StateT cores proved equal to the model (Tie A) + differential correspondence check')
 CHECKS['C14']['modelled'] = CHECKS['C14'].get('modelled', '') + _TIE_A_MONAD + _TIE_A_ARITY
 CHECKS['C14']['technique'] = ('Lean 4 proof over hand-written arity-generic model + regenerated Go->Lean translation of the generated families proved '
                               'equal to the model per arity (Tie A) + differential correspondence check')
